@@ -211,7 +211,7 @@ func matchPropTimeRange(start, end time.Time, field *ical.Prop) (bool, error) {
 func matchParamFilter(filter ParamFilter, field *ical.Prop) bool {
 	// TODO there can be multiple values
 	value := field.Params.Get(filter.Name)
-	if value == "" {
+	if len(field.Params.Values(filter.Name)) == 0 {
 		return filter.IsNotDefined
 	} else if filter.IsNotDefined {
 		return false
